@@ -666,12 +666,13 @@ def c11(tr, cx):
             if e[0] == 'preempt':
                 _, t, nid, vid, newid, vprio, nprio, inserv, vst, vsed, vren = e
                 tr.count('C11.preemptions')
-                cand = [x for x in inserv if not x[3]]
+                cand = [x for x in inserv if not x[3] and not x[4]]   # blocked customers and overtime servers are not eligible
                 if not cand: tr.v('C11', 'victim_blocked', e[:7]); continue
                 mx = max(x[1] for x in cand)
                 me = [y for y in inserv if y[0] == vid]
                 if not me: tr.v('C11', 'victim_not_in_service', e[:7]); continue
                 if me[0][3]: tr.v('C11', 'victim_blocked', e[:7])
+                if me[0][4]: tr.v('C11', 'victim_on_offduty_server', e[:7])
                 if vprio != mx: tr.v('C11', 'victim_not_lowest_priority', e[:8])
                 elif any(x[1] == mx and x[2] > me[0][2] for x in cand): tr.v('C11', 'victim_not_most_recent', e[:8])
                 if not (nprio < vprio): tr.v('C11', 'preempt_without_higher_priority', e[:8])
